@@ -595,12 +595,90 @@ def run_case(case, emit):
         truth_tables(emit)
 
 
+ORDERED = {
+    # values in increasing order; equal values appear because all pairs (incl. (x, x)) are compared
+    "Duration": ["D", "W", "M", "Q", "S", "A"],
+    "Date": ["1999-12-31", "2020-01-15", "2020-02-29", "2020-12-31", "2021-01-01"],
+    "Time_Period": ["2019Q4", "2020Q1", "2020Q2", "2020Q4", "2021Q1"],
+    "String": ["", "A", "Zz", "a", "ab", "b"],
+}
+
+
+def typed_comparisons(emit, only=None):
+    """every comparison operator on every ordered pair of values of the non-numeric ordered types, at component and dataset level"""
+    from vf import eng
+    import operator
+    ops = {"=": operator.eq, "<>": operator.ne, "<": operator.lt, ">": operator.gt, "<=": operator.le, ">=": operator.ge}
+    for t, vals in ORDERED.items():
+        if only and t != only:
+            continue
+        pairs = [(i, j) for i in range(len(vals)) for j in range(len(vals))]
+        c2 = [("Id_1", "Integer", "Identifier", False), ("Me_a", t, "Measure", True), ("Me_b", t, "Measure", True)]
+        c1 = [("Id_1", "Integer", "Identifier", False), ("Me_1", t, "Measure", True)]
+        rows = [(k, vals[i], vals[j]) for k, (i, j) in enumerate(pairs)] + [(len(pairs), vals[0], None), (len(pairs) + 1, None, vals[1])]
+        st = eng.structures(eng.mkds("DS_1", c2), eng.mkds("DS_A", c1), eng.mkds("DS_B", c1))
+        dps = {"DS_1": eng.mkdf(["Id_1", "Me_a", "Me_b"], rows), "DS_A": eng.mkdf(["Id_1", "Me_1"], [(r[0], r[1]) for r in rows]), "DS_B": eng.mkdf(["Id_1", "Me_1"], [(r[0], r[2]) for r in rows])}
+        for sym, f in ops.items():
+            want = {k: f(i, j) for k, (i, j) in enumerate(pairs)}
+            want[len(pairs)] = want[len(pairs) + 1] = None
+            for level, script, col in (("component", f"DS_r <- DS_1[calc Me_r := Me_a {sym} Me_b];", "Me_r"), ("dataset", f"DS_r <- DS_A {sym} DS_B;", "bool_var")):
+                b = f"typed-comparison/{t}/{sym}/{level}"
+                case = {"level": "typed-comparison", "type": t, "op": sym}
+                s, r = eng.call(eng.run, script, st, dps)
+                if s == "exc":
+                    name, code, isvtl = eng.exc_info(r)
+                    if name == "SemanticError":
+                        emit({"v": "skip", "why": f"generator_rejected {code}"})
+                    else:
+                        emit({"v": "viol", "b": b, "mech": f"typed-comparison/{t}/raises/{name}", "what": f"{script} on {t} values: {name} {code}: {str(r)[:160]}", "case": case})
+                    continue
+                ds = r["DS_r"]
+                if col not in ds.data.columns:
+                    emit({"v": "viol", "b": b, "mech": f"typed-comparison/{t}/result-column-missing", "what": f"{script}: columns {list(ds.data.columns)}", "case": case})
+                    continue
+                got = dict(zip(ds.data["Id_1"].tolist(), [eng.norm(v) for v in ds.data[col].tolist()]))
+                bad = [(rows[k][1], rows[k][2], got.get(k), w) for k, w in want.items() if got.get(k) is not w and not (got.get(k) == w and w is not None)]
+                if bad:
+                    emit({"v": "viol", "b": b, "mech": f"typed-comparison/{t}/{sym}/wrong-value", "what": f"{script}: {bad[0][0]!r} {sym} {bad[0][1]!r} gave {bad[0][2]!r}, expected {bad[0][3]!r} ({len(bad)} of {len(want)} pairs)", "case": case})
+                else:
+                    emit({"v": "held", "b": b, "sample": {"script": script, "pairs": len(want)}})
+
+
+def promoted_nulls(emit):
+    """string operators applied to a Boolean / Integer / Number measure (implicit promotion to String): a null datapoint stays null"""
+    from vf import eng
+    for t, vals in (("Boolean", [True, False, None, True]), ("Integer", [1, None, 25, -3]), ("Number", [1.5, None, 2.0, None])):
+        c1 = [("Id_1", "Integer", "Identifier", False), ("Me_1", t, "Measure", True)]
+        st = eng.structures(eng.mkds("DS_1", c1))
+        dps = {"DS_1": eng.mkdf(["Id_1", "Me_1"], list(enumerate(vals)))}
+        for script in ('DS_r <- DS_1 || "!";', 'DS_r <- "<" || DS_1;', "DS_r <- length(DS_1);", "DS_r <- upper(DS_1);", "DS_r <- substr(DS_1, 1, 2);", "DS_r <- DS_1 || DS_1;", "DS_r <- trim(DS_1);",
+                       'DS_r <- DS_1[calc Me_2 := Me_1 || "!"];', "DS_r <- DS_1[calc Me_2 := length(Me_1)];"):
+            b = f"promotion-null/{t}/{script.split('<- ')[1].split('(')[0].split(' ')[0][:10]}"
+            case = {"level": "promotion-null", "type": t, "script": script}
+            s, r = eng.call(eng.run, script, st, dps)
+            if s == "exc":
+                emit({"v": "skip", "why": f"promotion not accepted ({type(r).__name__})"})
+                continue
+            ds = r["DS_r"]
+            col = "Me_2" if "Me_2" in ds.data.columns else [c for c in ds.data.columns if c != "Id_1"][-1]
+            got = dict(zip(ds.data["Id_1"].tolist(), [eng.norm(v) for v in ds.data[col].tolist()]))
+            bad = [(vals[k], got.get(k)) for k in range(len(vals)) if (vals[k] is None) != (got.get(k) is None)]
+            if bad:
+                emit({"v": "viol", "b": b, "mech": f"promotion-null/{t}/null-not-propagated", "what": f"{script} on {t} values {vals}: input {bad[0][0]!r} gave {bad[0][1]!r}", "case": case})
+            else:
+                emit({"v": "held", "b": b, "sample": {"script": script, "values": [repr(v) for v in vals], "result": [repr(got.get(k)) for k in range(len(vals))]}})
+
+
 def run_shard(spec, emit):
     from vf import eng
     rng = random.Random(f"C01-{spec['seed']}-{spec['shard']}")
     bud = eng.Budget(spec.get("budget_s", 100 if spec["tier"] == "quick" else 2400))
     if spec["shard"] % 8 == 0:
         truth_tables(emit)
+    if spec["shard"] in (1, 2, 3, 4):
+        typed_comparisons(emit, only=list(ORDERED)[spec["shard"] - 1])
+    if spec["shard"] == 5:
+        promoted_nulls(emit)
     for i in range(spec["n"]):
         if not bud.ok():
             emit({"v": "inc", "why": "cut by wall-clock budget"})
